@@ -106,8 +106,8 @@ CHECKS.update({
  'C14': dict(
    technique='harness-enforced contracts (CBMC): EnhancedDevice::handleEnhancedBufferedData against a reference decoder written from docs/enhanced_proto.md; request encoders, PlainDevice::recv and FileTransport::read/readConsumed against stream contracts',
    level='other',
-   text='PROOF for the encoders, PlainDevice::recv and the transport; BOUNDED for the decoder (buffers of up to 6 bytes per call in the quick tier, 10 in the thorough tier; the transport buffer holds 32, which did not finish): one call of the real handleEnhancedBufferedData on an arbitrary buffer of that length and an arbitrary device state is shown to return the same symbol, arbitration verdict, consumed byte count, diagnostic notification sequence and bookkeeping as the reference decoder (only whole frames consumed, a dangling first byte and the next symbol stay buffered); SEND/START/cancel requests are proved to be encoded as 11ccccdd 10dddddd; PlainDevice::recv delivers the first buffered byte unchanged, writes the arbitration address exactly after a lone SYN and gives the verdict with the next symbol; FileTransport keeps the unconsumed stream bytes unchanged and in order, an overflow reset discards exactly the buffered bytes and is reported. EnhancedDevice::recv (one pass) hands the transport buffer to the frame decoder with the arbitration marked as running while one is requested, returns the verdict of the decoder, keeps a requested arbitration on a timeout and cancels it (START <SYN>) on any other transport error. With the transport contract this gives chunking independence by induction over calls (argument in DESIGN.md).',
-   note=TB + 'decode runs are bounded stand-ins (6 / 8 / 10 bytes per call, unwinding assertions), labelled bounded in the evidence and not counted as proved; ::read/ppoll/Transport I/O, clock and listener are stubs; notifyInfoRetrieved/requestEnhancedInfo are stubs with asserted preconditions; the repetition of EnhancedDevice::recv until its deadline (clock dependent) is not under contract.',
+   text='PROOF for the encoders, PlainDevice::recv and the transport; BOUNDED for the decoder (buffers of up to 6 bytes per call in the quick tier, 8 in the thorough tier; 10 bytes did not finish in 4000 s, the transport buffer holds 32): one call of the real handleEnhancedBufferedData on an arbitrary buffer of that length and an arbitrary device state is shown to return the same symbol, arbitration verdict, consumed byte count, diagnostic notification sequence and bookkeeping as the reference decoder (only whole frames consumed, a dangling first byte and the next symbol stay buffered); SEND/START/cancel requests are proved to be encoded as 11ccccdd 10dddddd; PlainDevice::recv delivers the first buffered byte unchanged, writes the arbitration address exactly after a lone SYN and gives the verdict with the next symbol; FileTransport keeps the unconsumed stream bytes unchanged and in order, an overflow reset discards exactly the buffered bytes and is reported. EnhancedDevice::recv (one pass) hands the transport buffer to the frame decoder with the arbitration marked as running while one is requested, returns the verdict of the decoder, keeps a requested arbitration on a timeout and cancels it (START <SYN>) on any other transport error. With the transport contract this gives chunking independence by induction over calls (argument in DESIGN.md).',
+   note=TB + 'decode runs are bounded stand-ins (6 / 8 bytes per call, unwinding assertions), labelled bounded in the evidence and not counted as proved; ::read/ppoll/Transport I/O, clock and listener are stubs; notifyInfoRetrieved/requestEnhancedInfo are stubs with asserted preconditions; the repetition of EnhancedDevice::recv until its deadline (clock dependent) is not under contract.',
    ref='DESIGN.md 5 (C14)'),
 })
 
